@@ -8,7 +8,9 @@ PROPS = ["Props/C01.v"]
 OBLIG = ["Oblig/C01Frame.v"]
 # the record-level codec proofs (layout checker + generic theorems) are added when present
 # ... and the file-level composition (typed file tree, reader dispatch tables regenerated from reader.go)
-for extra_p, extra_o in (("Props/C01Records.v", "Oblig/C01Obl.v"), ("Props/C01File.v", "Oblig/C01FileObl.v")):
+# ... and the model of the DEFAULT reader (record dispatch + regenerated record rules + batch arithmetic; phase 3)
+for extra_p, extra_o in (("Props/C01Records.v", "Oblig/C01Obl.v"), ("Props/C01File.v", "Oblig/C01FileObl.v"),
+                         ("Props/C01Valid.v", "Oblig/C01ValidObl.v")):
     if os.path.exists(os.path.join(C.COQ, extra_p)):
         PROPS.append(extra_p)
         OBLIG.append(extra_o)
@@ -34,7 +36,129 @@ def build(ctx):
         ctx.log("ocaml c01file", out[-3000:])
         if not ok:
             ctx.diag.append("extracted whole-file model does not build: " + out[-600:])
+    if os.path.exists(os.path.join(C.COQ, "Extract", "C01VALID.v")):
+        ok, out = C.build_ocaml("c01valid")
+        ctx.log("ocaml c01valid", out[-3000:])
+        if not ok:
+            ctx.diag.append("extracted validating-reader model does not build: " + out[-600:])
     return True
+
+
+def varied_field(desc):
+    """'field Kind.Field := …' -> Field; '' for line-level cases."""
+    t = desc.split(" ")
+    if len(t) >= 2 and t[0].startswith("field") and "." in t[1]:
+        return t[1].split(".", 1)[1]
+    return ""
+
+
+def valid_corr(ctx, d):
+    """(4) the DEFAULT reader: extracted ReaderValid.read_text_valid (dispatch + regenerated record rules + batch
+    arithmetic) vs ach.NewReader(...).Read() with default validation on generated valid files of every SEC code,
+    single-field changes of them (rendered record by record) and line-level changes of the written text:
+    accept / reject / accepted-with-an-unclosed-batch, on acceptance the file record by record and the rule class
+    of File.Validate().  The model knows fewer rules than the code (unrecognised checks of Gen/RecRules.v, the SEC
+    specific batch rules): a case the code rejects ONLY for such a rule while the model accepts is counted and
+    skipped; everything else must agree."""
+    drv = os.path.join(C.BUILD, "ocaml", "c01valid", "driver")
+    exe = os.path.join(C.BIN, "c01valid")
+    if not (os.path.exists(drv) and os.path.exists(exe)):
+        ctx.diag.append("validating-reader correspondence could not run (driver or harness missing)")
+        return
+    rc, out = C.sh([exe, "corr", "-out", d, "-n", str(ctx.scale(2, 10)), "-nmut", str(ctx.scale(5, 8)), "-nline", str(ctx.scale(3, 6))],
+                   timeout=3000)
+    ctx.log("corr valid", out[-2500:])
+    if rc != 0:
+        ctx.diag.append("validating-reader correspondence crashed rc=%d: %s" % (rc, out[-300:]))
+        return
+    rc, out2 = C.sh("%s %s > %s" % (drv, os.path.join(d, "vcases.txt"), os.path.join(d, "vmodel.txt")), timeout=3000)
+    if rc != 0:
+        ctx.diag.append("extracted validating-reader model crashed: " + out2[-300:])
+    valid_compare(ctx, d, out)
+    # the witnesses of Props/C01Valid.v on the real code (known findings: blank-only mandatory field, creation date)
+    rc, out = C.sh([exe, "witness", "-out", d, "-n", str(ctx.scale(6, 40))], timeout=3000)
+    ctx.log("valid witness", out[-500:])
+    if rc != 0:
+        ctx.diag.append("validating-reader witnesses crashed rc=%d: %s" % (rc, out[-300:]))
+        return
+    before = len(ctx.fails)
+    summ = ctx.read_jsonl(os.path.join(d, "witness.jsonl"))
+    for f in ctx.fails[before:]:
+        f["input"] = f.get("case")
+    ctx.add_summary(summ, "default-reader witnesses")
+
+
+def valid_compare(ctx, d, out=""):
+    """Normalise vmodel.txt / vimpl.txt (see valid_corr) and compare them line by line."""
+    try:
+        m = open(os.path.join(d, "vmodel.txt")).read().splitlines()
+        i = open(os.path.join(d, "vimpl.txt")).read().splitlines()
+        ds = open(os.path.join(d, "vdesc.txt")).read().splitlines()
+    except OSError as ex:
+        ctx.diag.append("validating-reader correspondence: missing output (%s)" % ex)
+        return
+    cnt = {"accepted_same": 0, "unclosed_batch_same": 0, "rejected_same": 0, "skipped_batch_rule_not_modelled": 0,
+           "skipped_unrecognised_record_rule": 0, "file_validate_rule_not_modelled": 0,
+           "rejected_by_record_rule": 0, "rejected_by_batch_arithmetic": 0, "rejected_structure": 0}
+    mo, io, co = [], [], []
+    unknown_fields = set()
+    for k in range(min(len(m), len(i))):
+        a, b = m[k], i[k]
+        if a.startswith("U") and b == "U":
+            unknown_fields = set(a.split(" ")[1:])
+            a = "U"
+        at, bt = a.split(" ", 3), b.split(" ", 2)
+        if at[0] in ("OK", "LINGER") and len(at) == 4:
+            u, rule, tree = at[1], at[2], at[3]
+            a = "%s %s %s" % (at[0], rule, tree)
+            if bt[0] == at[0] and len(bt) == 3:
+                if bt[1] == "99":           # File.Validate() stopped at a rule the arithmetic model does not have
+                    cnt["file_validate_rule_not_modelled"] += 1
+                    a = "%s 99 %s" % (at[0], tree)
+                if a == b:
+                    cnt["accepted_same" if at[0] == "OK" else "unclosed_batch_same"] += 1
+            elif bt[0] == "ERR":
+                cl = b.split(" ")[1:]
+                if cl and all(c == "B99" for c in cl):
+                    cnt["skipped_batch_rule_not_modelled"] += 1
+                    a = b = "SKIP"
+                elif u == "1" and any(c.startswith("R:") for c in cl):
+                    cnt["skipped_unrecognised_record_rule"] += 1
+                    a = b = "SKIP"
+                elif any(c.startswith("R:") and c[2:] in unknown_fields and c[2:] != varied_field(ds[k]) for c in cl):
+                    # the code reports a field OTHER than the varied one (a line-level change, or a changed type /
+                    # return / change code made the reader parse the record as another type) that an unrecognised
+                    # check of some record type mentions
+                    cnt["skipped_unrecognised_record_rule"] += 1
+                    a = b = "SKIP"
+        elif at[0] == "ERR" and bt[0] == "ERR":
+            # the model names the layer that rejects: a record rule => the code reports a record (field) error,
+            # the batch arithmetic alone => the code reports a batch error
+            cl = b.split(" ")[1:]
+            why = at[1] if len(at) > 1 else "00"
+            if why[0] == "1" and not any(c.startswith("R:") for c in cl):
+                a, b = "ERR record-rule", "ERR " + " ".join(cl)
+            elif why[1:2] == "1" and not any(c.startswith("B") or c.startswith("R:") for c in cl):
+                # (a record error of the code may come from a rule the model does not recognise: the record is then
+                # not attached and the batch the model rejects never comes about)
+                a, b = "ERR batch-arithmetic", "ERR " + " ".join(cl)
+            else:
+                cnt["rejected_same"] += 1
+                cnt["rejected_by_record_rule" if why[0] == "1" else "rejected_by_batch_arithmetic" if why[1:2] == "1" else "rejected_structure"] += 1
+                a = b = "ERR"
+        mo.append(a)
+        io.append(b)
+        co.append((ds[k] if k < len(ds) else "?")[:300])
+    for name, rows in (("vmodel.f.txt", mo), ("vimpl.f.txt", io), ("vcases.f.txt", co)):
+        with open(os.path.join(d, name), "w") as fh:
+            fh.write("\n".join(rows) + "\n")
+    label = "default reader (dispatch + record rules + batch arithmetic vs ach.Reader with validation)"
+    ctx.compare(label, os.path.join(d, "vmodel.f.txt"), os.path.join(d, "vimpl.f.txt"), os.path.join(d, "vcases.f.txt"))
+    try:
+        ctx.cov["correspondence"][label].update(cnt)
+        ctx.cov["valid_reader_corr"] = json.loads(out.strip().splitlines()[-1])
+    except (KeyError, ValueError, IndexError):
+        pass
 
 
 def file_corr(ctx, d):
@@ -90,10 +214,12 @@ def run(ctx):
     ctx.search = search
     ctx.trusted += ["reader-dispatch translator (translator/readerdispatch.go: switch cases, code lists, SEC list, detection columns, guard texts of reader.go -> Gen/ReaderDispatch.v); the hand-modelled control flow of Codec/Dispatch.v (step1..step9) is validated by the whole-file correspondence",
                     "layout translator (translator/layouts.go: Parse/String/…Field of the 26 record types -> Gen/Layouts.v), validated by the record correspondence",
+                    "validating reader (Codec/ReaderValid.v): the placement of the record / batch checks is pinned to reader.go by translator/readervalid.go (Gen/ReaderValidSites.v) and validated by the default-reader correspondence; the record rules are those of Gen/RecRules.v (C02), the batch arithmetic Model/Arith.v over Gen/Tables.v (C03)",
                     "golang.org/x/net charset sniffing, bufio.Scanner (ScanRunes) — modelled as 'yield the decoded characters', not verified"]
     ctx.assumptions += ["input is valid UTF-8 (the charset stage is outside the model; late non-ASCII is a known finding)",
                         "record validators are not part of the C01 model: the oracle supplies valid files",
-                        "file-level theorems: the typed reader is Reader.Read with record/batch validation skipped (ValidateOpts.SkipAll); a batch without control (accepted by Go) is outside the file tree (model: None)"]
+                        "file-level theorems of Props/C01File.v: the typed reader is Reader.Read with record/batch validation skipped (ValidateOpts.SkipAll); a batch without control (accepted by Go) is outside the file tree (model: None)",
+                        "Props/C01Valid.v: the default reader's validation is modelled as far as Gen/RecRules.v recognises the record rules (isAlphanumeric, ISO code look-ups and a few others are 'unknown': the model accepts there) and Model/Arith.v the batch rules (SEC specific rules are outside): the model accepts a superset of what the code accepts"]
     if not build(ctx):
         return
     drv = os.path.join(C.BUILD, "ocaml", "c01", "driver")
@@ -122,6 +248,7 @@ def run(ctx):
         ctx.compare("record String/Parse (26 layouts)", os.path.join(d, "model.f.txt"), os.path.join(d, "impl.f.txt"), os.path.join(d, "cases.f.txt"))
         ctx.compare("reader framing", os.path.join(d, "fmodel.txt"), os.path.join(d, "fimpl.txt"), os.path.join(d, "fcases.txt"))
         file_corr(ctx, d)
+        valid_corr(ctx, d)
     else:
         ctx.diag.append("correspondence could not run: " + (out + out2)[-300:])
     summ = oracle(ctx, ctx.scale(600, 6000), ctx.scale(600, 6000))
